@@ -693,6 +693,27 @@ func (s *sched) step(ghosts bool) {
 			m.restartAfterNT = ""
 			m.mu.Unlock()
 		}
+	case p < 96 && !s.ownWrites:
+		// the leader keeps an unreplicated tail (its followers hear nothing), is declared failed while it is up, and
+		// (having the longest log) is the natural winner of that election; a little later it really fails and the
+		// links heal. Whatever it served in between must not be rolled back by the next leader.
+		if ln := s.leaderName(); ln != "" {
+			for _, n := range c.Nodes {
+				if n.Name != ln {
+					c.Link(ln, n.Name).SetStalled(true)
+				}
+			}
+			h.Note("leader %s isolated from its followers (keeps taking writes)", ln)
+			time.Sleep(time.Duration(20+rng.IntN(80)) * time.Millisecond)
+			s.inc.SC.NodeBecameUnavailable(ctl.Server(ln))
+			time.Sleep(time.Duration(150+rng.IntN(300)) * time.Millisecond)
+			_ = c.Node(ln).Crash()
+			s.unstallAll()
+			h.Note("leader %s crashed, links healed", ln)
+			r.Count("leaders_reelected_with_a_tail_then_failed", 1)
+			s.inc.SC.NodeBecameUnavailable(ctl.Server(ln))
+			s.waitSteady(time.Duration(300+rng.IntN(700)) * time.Millisecond)
+		}
 	default:
 		s.level = []int{0, 20, 50, 100}[rng.IntN(4)]
 		h.SetFaultLevel(s.level)
